@@ -5,7 +5,7 @@ import vlib
 
 PROPS = ['Rangers.Props.C20', 'Rangers.Props.C20B', 'Rangers.Props.C20Facts']
 DRIVERS = ['C20']
-KNOWN_KEYS = ('stale-iterator-in-block', 'id-hash-collision', 'refund-lost-second-account', 'unstake-opcode-escrows-untruncated-amount', 'reactivation-needs-more-than-minimum')
+KNOWN_KEYS = ('stale-iterator-in-block', 'id-hash-collision', 'refund-lost-second-account', 'unstake-opcode-escrows-untruncated-amount', 'reactivation-needs-more-than-minimum', 'pkcache-keeps-discarded-block', 'reader-panics-on-long-id')
 META = dict(
     level='proof',
     technique='Lean 4 theorems (invariant + per-transaction refinement lemmas, all inputs, every key-hash/JSON codec) about an '
@@ -20,7 +20,8 @@ META = dict(
     trusted_base=['Lean 4 kernel (+ leanchecker in thorough)', 'gen/cmd/c20facts (go/ast extraction)', 'harness/cmd/c20 (Go harness, op protocol, error-class mapping)',
                   'go-rangers AccountDB/trie/journal (state store under the executors; C02-C04)', 'encoding/json (codec hypotheses CodecId/RawOK)',
                   'crypto/sha256 (only through the Untouched hypotheses; the driver runs its own SHA-256)', 'math/big Float (f64 rounding modelled, sampled)'],
-    assumptions=['chain config dev, heights >= 12: proposals 001-027 active except 025 (status slot, refund height = now+36000, fee 0.001)',
+    assumptions=['fork schedule: every proposal read on the path (T-gen fork_flags_on_path) active — dev height >= 12, mainnet height >= 69329000, robin height >= 84150000 (sessions run under all three); IsSub false; height != Proposal004/010/011/019Block; historical pre-003/-012/-021/-026 rules are not modelled',
+                 'the concurrent-readers stage is evidence (sampled schedules, -race in thorough), not proof',
                  'harness signs with the zero signature: empty miner ids fail recovery (fail:recover)',
                  'account byte strings are not themselves valid miner JSON (TxOK)',
                  'total token supply < 2^53 tokens, so float64 debit rounding and uint64 stake wrap are unreachable (probed: outside_hypothesis notes)',
@@ -46,7 +47,55 @@ def correspond(ctx):
     n = 1500 if ctx.thorough() else 200
     c = vlib.correspond(ctx, 'c20', 'C20', ['episodes=%d' % n], timeout=1500)
     c['name'] = 'executors-vs-model'
-    return [c]
+    if c.get('bad_op', 0) > 0:
+        # both sides rejecting a generated line is a broken tie (generator/driver mismatch), not agreement
+        c['ok'] = False
+        c.setdefault('errors', []).append('%d generated op lines were answered bad-op' % c['bad_op'])
+    return [c, concurrent_readers(ctx)]
+
+
+def concurrent_readers(ctx):
+    """Class 4 (evidence, not proof): N goroutines read a committed state concurrently; all must see what the
+    sequential reader sees. Plain build in quick, -race build in thorough."""
+    res = dict(name='concurrent-readers (evidence only)', ok=False, ops=0, mismatches=0, errors=[], violations=[], samples=[])
+    race = ctx.thorough()
+    binp, log = vlib.go_build(ctx, vlib.HARNESS, './cmd/c20', 'c20race' if race else 'c20conc', race=race)
+    if not binp:
+        res['errors'].append('build failed: ' + log[-1500:])
+        return res
+    cwd = ctx.scratch('c20conc')
+    ops = os.path.join(ctx.work, 'c20conc.ops')
+    obs = os.path.join(ctx.work, 'c20conc.obs')
+    env = dict(VERIF_SEED=str(ctx.seed + 104729), VERIF_TIER=ctx.tier, GOMEMLIMIT='8GiB')
+    rc, so, se = vlib.run([binp, 'mode=conc', 'ops=' + ops, 'obs=' + obs, 'tier=' + ctx.tier], cwd=cwd, env=env, timeout=1500)
+    import shutil
+    shutil.rmtree(cwd, ignore_errors=True)
+    races = se.count('WARNING: DATA RACE')
+    for line in so.split('\n'):
+        if line.startswith('CONC '):
+            j = json.loads(line[5:])
+            res['ops'] = j['checks']
+            res['mismatches'] = j['differ']
+            res['stats'] = j
+    res['stats'] = dict(res.get('stats') or {}, race_build=race, data_race_reports=races)
+    if rc != 0 and not races:
+        res['errors'].append('harness exited %d: %s' % (rc, (se or so)[-600:]))
+    first = ''
+    try:
+        for o, a in zip(open(ops), open(obs)):
+            if not a.startswith('same'):
+                first = o.strip() + ' => ' + a.strip()[:600]
+                break
+    except OSError:
+        pass
+    if res['mismatches'] or first:
+        res['violations'].append(dict(key='concurrent-readers-disagree', desc=first or 'a concurrent reader saw a different registry',
+                                      replay=dict(how='harness/bin/c20 mode=conc with VERIF_SEED=%d' % (ctx.seed + 104729))))
+    if races:
+        res['violations'].append(dict(key='data-race-in-registry-readers', desc=se[se.find('WARNING: DATA RACE'):][:1500],
+                                      replay=dict(how='go build -race; harness/bin/c20race mode=conc')))
+    res['ok'] = (res['ops'] > 0 and not res['mismatches'] and not races and not res['errors'])
+    return res
 
 
 def search(ctx, hints):
@@ -69,8 +118,8 @@ def search(ctx, hints):
     import shutil
     shutil.rmtree(cwd, ignore_errors=True)
     if rc != 0:
+        # keep what was found before the searcher died / timed out
         res['error'] = 'searcher exited %d: %s' % (rc, (se or so)[-800:])
-        return res
     seen = set()
     try:
         for l in open(ops, errors='replace'):
@@ -78,11 +127,14 @@ def search(ctx, hints):
     except OSError:
         pass
     res['distinct_nontrivial'] = len(seen)
+    bykey = {}
     for line in so.split('\n'):
         if line.startswith('VIOL '):
+            # the searcher prints a violation when it finds it and again whenever it finds a better witness
+            # for the same class: the last line per key is the best one
             v = json.loads(line[5:])
-            res['violations'].append(dict(key=v['key'], desc=v['desc'],
-                                          replay=dict(script=v['script'], how='harness/bin/c20 script=<file with these lines>')))
+            bykey[v['key']] = dict(key=v['key'], desc=v['desc'],
+                                   replay=dict(script=v['script'], how='harness/bin/c20 script=<file with these lines>'))
         elif line.startswith('NOTE '):
             v = json.loads(line[5:])
             res.setdefault('outside_hypothesis', []).append(dict(key=v['key'], desc=v['desc'][:400], script_tail=v['script'][-3:]))
@@ -95,6 +147,7 @@ def search(ctx, hints):
                 res['stats'] = json.loads(line[6:])
             except Exception:
                 pass
+    res['violations'] = [bykey[k] for k in sorted(bykey)]
     res['samples'] = [dict(key=v['key'], desc=v['desc'][:300]) for v in res['violations'][:4]]
     return res
 
